@@ -3731,6 +3731,9 @@ class NameCheckVisitor(node_visitor.ReplacingNodeVisitor):
             return Constraint(varname, ConstraintType.predicate, positive, predicate)
         else:
             positive_operator, negative_operator, ext = COMPARATOR_TO_OPERATOR[type(op)]
+            if not is_right and type(op) in AST_TO_MIRRORED:
+                # "3 < x" means "x > 3": the bound applies from the other side
+                _, _, ext = COMPARATOR_TO_OPERATOR[AST_TO_MIRRORED[type(op)]]
 
             def predicate_func(value: Value, positive: bool) -> Optional[Value]:
                 op = positive_operator if positive else negative_operator
